@@ -386,10 +386,20 @@ func (zns *ZnPMServer) StartWorker() error {
 		// set busy state
 		zns.writeProcState(pipeWriter, WORKER_STATE_BUSY)
 
-		// Wrap the connection in a bufio.Reader to read the HTTP request
+		// Wrap the connection in a bufio.Reader to read the HTTP request.
+		// The head of the request is part of the request: a client that connects and then
+		// sends nothing (or half a head) must not hold the worker busy for ever
+		conn.SetReadDeadline(time.Now().Add(time.Duration(timeout) * time.Second))
 		bufReader := bufio.NewReader(conn)
 		req, err := http.ReadRequest(bufReader)
+		conn.SetReadDeadline(time.Time{})
 		if err != nil {
+			if ne, ok := err.(net.Error); ok && ne.Timeout() {
+				zns.writeProcState(pipeWriter, WORKER_STATE_STOPPED)
+				// wait for a while before exiting the process
+				time.Sleep(100 * time.Millisecond)
+				os.Exit(1)
+			}
 			return fmt.Errorf("read HTTP request error: %v", err)
 		}
 
